@@ -93,14 +93,38 @@ class Slot:
     def __init__(self, kind, ctx, prefix, extra=()):
         self.kind, self.ctx, self.prefix, self.extra = kind, ctx, prefix, tuple(extra)
         self.cur = set()
+        self.parts = []          # how the device currently splits the list over config lines (stable between fetches)
+        self.parts_of = None     # the set self.parts was computed for
+        self.names = {}          # hw-batch only: vlan id -> name (vlan N / name X blocks)
 
     @property
     def name(self):
         return "%s|%s|%s" % (self.kind, self.ctx or "-", self.prefix)
 
+    def partition(self, ch, vset, tag):
+        return split_ranges(ch, ranges(vset), 1 if self.kind == "hw-instance" else 4, tag)
+
+    def device_parts(self, ch):
+        """the device re-renders a list only when its content changed"""
+        if self.parts_of != self.cur:
+            self.parts = self.partition(ch, self.cur, "dev-split")
+            self.parts_of = set(self.cur)
+        return self.parts
+
+    def render_parts(self, parts, tiny=True):
+        if self.kind.startswith("hw"):
+            return ["%s %s" % (self.prefix, hw_tokens(p)) for p in parts]
+        lines = []
+        for n, p in enumerate(parts):
+            if self.kind == "cs-trunk" and n > 0:
+                lines.append("%s add %s" % (self.prefix, cs_tokens(p, tiny)))
+            else:
+                lines.append("%s %s" % (self.prefix, cs_tokens(p, tiny)))
+        return lines
+
     def render(self, ch, vset, tag, tiny=True):
         """config lines for a set, split over 1..4 lines"""
-        parts = split_ranges(ch, ranges(vset), 1 if self.kind == "hw-instance" else 4, tag)
+        parts = self.partition(ch, vset, tag)
         if self.kind.startswith("hw"):
             return ["%s %s" % (self.prefix, hw_tokens(p)) for p in parts]
         lines = []
@@ -148,10 +172,13 @@ class VlanDevice:
                         if ind + e not in body:
                             body.append(ind + e)
             for s in slots:
-                body.extend(ind + l for l in s.render(ch, s.cur, "dev-split", tiny))
+                body.extend(ind + l for l in s.render_parts(s.device_parts(ch), tiny))
             lines.extend(body)
             if ctx and self.huawei:
                 lines.append("#")
+            for s in slots:
+                for vid in sorted(s.names):
+                    lines.extend(["vlan %d" % vid, " name %s" % s.names[vid], "#"])
         return "\n".join(lines) + "\n"
 
     def exec(self, level, row):
@@ -170,6 +197,8 @@ class VlanDevice:
             if row == "commit" and self.two_stage:
                 for s in self.slots:
                     s.cur = set(self.candidate[s.name])
+                    if "names:" + s.name in self.candidate:
+                        s.names = dict(self.candidate["names:" + s.name])
                 return None
             if row in ("q", "exit"):
                 self.in_config = False
@@ -183,6 +212,28 @@ class VlanDevice:
             if re.match(r"^(interface \S+|vlan pool \S+|stp region-configuration)$", row):
                 self.ctx = row
                 return None
+            batch = [s for s in self.slots if s.kind == "hw-batch"]
+            m = re.match(r"^(undo )?vlan (\d+)$", row) if self.huawei else None
+            if m and batch:
+                vid = int(m.group(2))
+                sets = self._sets()
+                if m.group(1):
+                    sets[batch[0].name].discard(vid)          # 'undo vlan N' deletes the VLAN altogether
+                    self._names(batch[0]).pop(vid, None)
+                else:
+                    sets[batch[0].name].add(vid)              # entering the block creates the VLAN
+                    self.ctx = row
+                return None
+        if level >= 1 and self.ctx and re.match(r"^vlan \d+$", self.ctx):
+            batch = [s for s in self.slots if s.kind == "hw-batch"][0]
+            vid = int(self.ctx.split()[1])
+            if row.startswith("name "):
+                self._names(batch)[vid] = row[5:]
+                return None
+            if row == "undo name":
+                self._names(batch).pop(vid, None)
+                return None
+            return self._anomaly("unknown-command", level, row)
         sets = self._sets()
         for s in self.slots:
             if (s.ctx or None) != (self.ctx if level >= 1 else None):
@@ -254,6 +305,11 @@ class VlanDevice:
             return True
         return False
 
+    def _names(self, slot):
+        if self.two_stage and self.candidate is not None:
+            return self.candidate.setdefault("names:" + slot.name, dict(slot.names))
+        return slot.names
+
     def _anomaly(self, kind, level, row):
         a = (self.executed, kind, level, row)
         self.anomalies.append(a)
@@ -310,11 +366,15 @@ class VlanWorld:
             used.add(s.name)
             slots.append(s)
         self.slots = slots
-        self.universe_mode = ch.weighted([(3, "small"), (2, "mid"), (1, "full")], "universe")
+        self.universe_mode = ch.weighted([(3, "small"), (2, "mid"), (2, "sparse"), (1, "full")], "universe")
         self.dev = VlanDevice(self.hw, slots)
         for s in slots:
             s.cur = self.draw_set(ch, "init")
+            if s.kind == "hw-batch":
+                s.names = self.draw_names(ch, s.cur, {})
         self.desired = {s.name: set(s.cur) for s in slots}
+        self.desired_parts = {s.name: None for s in slots}
+        self.desired_names = {s.name: dict(s.names) for s in slots}
         self.fetch_plan, self.deploy_plan = {}, {}
         self.received = {}
         self.cut_happened = set()
@@ -330,17 +390,21 @@ class VlanWorld:
             uni = list(range(2, 14))
         elif mode == "mid":
             uni = list(range(100, 180))
+        elif mode == "sparse":
+            uni = list(range(100, 400, 2)) + [4093, 4094]       # many one-element ranges: several chunks per command
         else:
             uni = None
 
         def rnd():
             if uni is not None:
-                k = ch.draw(min(len(uni), 9), tag + "-n")
+                k = ch.draw(min(len(uni), 9 if mode != "sparse" else 40), tag + "-n")
                 return set(ch.sample(uni, k, tag + "-pick"))
+            if ch.draw(8, tag + "-whole") == 0:
+                return set(range(2, 4095))                     # the whole range 2..4094
             s = set()
             for _ in range(ch.draw(5, tag + "-nr")):
-                lo = 2 + ch.draw(4000, tag + "-lo")
-                s.update(range(lo, min(4095, lo + 1 + ch.draw(40, tag + "-len"))))
+                lo = ch.pick([2 + ch.draw(4000, tag + "-lo"), 4050 + ch.draw(45, tag + "-hi")], tag + "-where")
+                s.update(range(lo, min(4095, lo + 1 + ch.draw(60, tag + "-len"))))
             return s
         if how == "fresh" or base is None:
             return rnd()
@@ -355,6 +419,39 @@ class VlanWorld:
             return keep
         keep = set(x for x in sorted(base) if ch.draw(3, tag + "-keep") != 0)
         return keep | rnd()
+
+    def draw_names(self, ch, vset, old_names):
+        names = {}
+        for vid in sorted(vset)[:12]:
+            r = ch.draw(6, "vlan-name")
+            if r == 0:
+                names[vid] = "n%d" % (vid % 7)
+            elif r == 1 and vid in old_names:
+                names[vid] = old_names[vid]
+        return names
+
+    def draw_desired(self, ch, slot):
+        """new desired list for a slot: either a new set with a fresh splitting, or -- the common case on real
+        trunks -- the device's own lines kept verbatim with some lines dropped and/or new lines appended"""
+        how = ch.weighted([(4, "set"), (2, "drop-lines"), (2, "add-lines"), (2, "drop+add-lines")], "desired-how")
+        dev_parts = [list(p) for p in slot.device_parts(ch)]
+        if how == "set" or not dev_parts or slot.kind == "hw-instance":
+            vset = self.draw_set(ch, "new", base=slot.cur)
+            self.desired[slot.name] = vset
+            self.desired_parts[slot.name] = None
+            return how
+        keep = dev_parts
+        if how in ("drop-lines", "drop+add-lines"):
+            keep = [p for p in dev_parts if ch.draw(3, "keep-line") != 0]
+        extra = []
+        if how in ("add-lines", "drop+add-lines"):
+            add = self.draw_set(ch, "extra") - slot.cur
+            extra = slot.partition(ch, add, "extra-split")
+        parts = keep + extra
+        self.desired_parts[slot.name] = parts
+        self.desired[slot.name] = set(v for p in parts for (a, b) in p for v in range(a, b + 1))
+        self.probe("desired_keeps_device_lines")
+        return how
 
     # ---- protocol used by worlds/fakes
     def fire(self, kind):
@@ -376,12 +473,18 @@ class VlanWorld:
         """desired config as the generator yields it: own splitting of every list"""
         out = odict()
         for s in self.slots:
-            lines = s.render(self.ch, self.desired[s.name], "gen-split", self.tiny)
+            if self.desired_parts.get(s.name) is not None:
+                lines = s.render_parts(self.desired_parts[s.name], self.tiny)
+            else:
+                lines = s.render(self.ch, self.desired[s.name], "gen-split", self.tiny)
             tgt = out.setdefault(s.ctx, [])
             for e in s.extra:
                 if e not in tgt:
                     tgt.append(e)
             tgt.extend(lines)
+        for s in self.slots:
+            for vid in sorted(self.desired_names.get(s.name, {})):
+                out.setdefault("vlan %d" % vid, []).append("name %s" % self.desired_names[s.name][vid])
         return out
 
     async def play(self, inv, cmds, args):
@@ -419,6 +522,8 @@ def make_vlan_generator(world, serial):
             port hybrid tagged vlan
             port hybrid untagged vlan
         vlan batch
+        vlan */\\d+/
+            name
         vlan pool *
             vlan *
         stp region-configuration
@@ -546,8 +651,11 @@ class Engine:
         nsteps = 2 + ch.draw(3, "nsteps")
         for step in range(nsteps):
             last = step == nsteps - 1
+            hows = {}
             for s in world.slots:
-                world.desired[s.name] = world.draw_set(ch, "new", base=s.cur)
+                hows[s.name] = world.draw_desired(ch, s)
+                if s.kind == "hw-batch":
+                    world.desired_names[s.name] = world.draw_names(ch, world.desired[s.name], s.names)
             world.deploy_plan = {}
             world.fetch_plan = {}
             if not last and ch.draw(3, "cut") == 0:
@@ -575,7 +683,7 @@ class Engine:
             got = world.received.get(world.inv[0].id, [])
             entry = {"step": step, "rc": rc, "commands": len(got),
                      "vlan_commands": sum(1 for (_l, c) in got if re.search(r"vlan", c) and re.search(r"\d", c)),
-                     "sizes": {n: (len(pre[n]), len(world.desired[n])) for n in pre},
+                     "sizes": {n: (len(pre[n]), len(world.desired[n])) for n in pre}, "how": hows,
                      "cut": world.deploy_plan.get(world.inv[0].id, {}).get("cut")}
             steps_log.append(entry)
             if found:
@@ -593,6 +701,10 @@ class Engine:
                     return V("final-set-differs", self._key(world, n, ""), step=step, slot=n, old=sorted(pre[n]),
                              new=sorted(world.desired[n]), got=sorted(post[n]), missing=sorted(world.desired[n] - post[n])[:20],
                              extra=sorted(post[n] - world.desired[n])[:20], commands=got)
+            for sl in world.slots:
+                if sl.kind == "hw-batch" and sl.names != world.desired_names[sl.name]:
+                    return V("vlan-names-differ", "hw-batch-names", step=step, slot=sl.name, got=sl.names,
+                             want=world.desired_names[sl.name], commands=got)
             world.probe("deploy_converged")
         return None
 
